@@ -1,5 +1,6 @@
 SPECIFICATION TraceSpec
 PROPERTY T_RestoreReinstates
 PROPERTY T_NewerForeignStays
+INVARIANT ActiveIsAlive
 POSTCONDITION TraceAccepted
 CHECK_DEADLOCK FALSE
